@@ -576,6 +576,16 @@ class Session:
                     raise Violation("C09", "creation-changed-existing-node",
                                     {"path": path,
                                      "at": render(pos, "/")})
+                if val[0] == "m":
+                    # a container on the path gains children; the keys it
+                    # already had keep their relative order
+                    was = [k for k, _v in val[1]]
+                    now = [k for k, _v in post_nodes[pos][1] if k in was]
+                    if was != now:
+                        raise Violation(
+                            "C09", "creation-reordered-existing-keys",
+                            {"path": path, "at": render(pos, "/"),
+                             "was": was, "now": now})
                 continue
             if post_nodes.get(pos) != val:
                 raise Violation("C09", "creation-changed-existing-node",
